@@ -118,7 +118,7 @@ MAX_MONEY = 2_100_000_000_000_000
 
 
 @ob("C18", "build_psbt_conserves_value_and_pays_the_rate", quick=[dict(nin=1, nout=1, change=1), dict(nin=2, nout=1, change=1), dict(nin=1, nout=1, change=0), dict(nin=1, nout=2, change=1)],
-    thorough=[dict(nin=i, nout=o, change=c) for i in (1, 2, 3) for o in (0, 1, 2) for c in (0, 1) if (o or c) and i + o <= 4],
+    thorough=[dict(nin=i, nout=o, change=c) for i in (1, 2, 3) for o in (0, 1, 2) for c in (0, 1) if (o or c) and i + o <= 3],
     bound="P2WPKH / P2TR key-path inputs (1..3) whose utxo values are symbolic over 0..2^51, 0..2 payments with symbolic values, fee rate symbolic in 0..10^7 sat/kvB, with and without a change script: "
           "an answer conserves value, pays at least ceil(rate x estimated vsize of the psbt returned), never holds a change output below the dust threshold, "
           "and a refusal happens only for amounts outside the money range or inputs that do not cover outputs plus fee",
